@@ -41,6 +41,7 @@ def main():
     ap.add_argument('--from', dest='src')
     ap.add_argument('--checks', default='')
     ap.add_argument('--tier', default='quick')
+    ap.add_argument('--only', action='store_true', help='run only the checks named by --checks (the check of the property itself has been run before)')
     ap.add_argument('--skip-confirm', action='store_true')
     ap.add_argument('--light', action='store_true', help='confirm with the demonstration only (exit 0 without / 1 with the patch); the test-suite comparison is taken from the author of the change')
     a = ap.parse_args()
@@ -77,7 +78,7 @@ def main():
         finally:
             sh(f'git -C /repo worktree remove --force {wt}')
             shutil.rmtree(wt, ignore_errors=True)
-    checks = [a.prop] + [c for c in a.checks.split(',') if c and c != a.prop]
+    checks = ([] if a.only else [a.prop]) + [c for c in a.checks.split(',') if c and (a.only or c != a.prop)]
     rc, out = sh(f'git -C /repo apply {patch}')
     if rc:
         print('cannot apply to /repo', out); return 2
